@@ -10,7 +10,7 @@ from common import Cmat, Cx, R, Rmat, cfl, fl, flmat, max_rel_err
 from common import wiring_pre_build as pre_build  # noqa: E402,F401
 
 LEAN_MODULES = ["PyomaVerif.Props.C01", "PyomaVerif.Props.WiringRun", "PyomaVerif.Props.C01C11", "PyomaVerif.Props.C01E2E",
-                "PyomaVerif.Props.C01Table"]
+                "PyomaVerif.Props.C01Table", "PyomaVerif.Props.C03Table"]
 THEOREMS = [
     # call-site wiring of the class layer, regenerated from /repo on every run (translate_wiring.py)
     "PV.WiringRun.C12_run_build_hank",
@@ -61,6 +61,11 @@ THEOREMS = [
     "PV.C01Table.C01_e2e_dat_table",
     "PV.C01Table.Ex.table",
     "PV.C01Table.ExDat.table",
+    # multi-setup (C03): the same tables on the lists of SSI_multi_setup; the hypothesis ColumnFilled of C03C11_global derived
+    # (listed here because the SSI_poles streams live in this harness)
+    "PV.C03Table.C03_e2e_table",
+    "PV.C03Table.C03_columnFilled",
+    "PV.C03Table.Ex.table",
 ]
 RULE = (
     "correspondence: ssi.SSI_fast (also its list-building loop with step 1..3), ssi.SSI, ssi.ac2mp and ssi.SSI_poles as one model function "
